@@ -229,6 +229,14 @@ func (rs *RequestServer) packetWorker(ctx context.Context, pktChan chan orderedR
 			}
 		}
 
+		// A request whose attribute block is shorter than its flags announce
+		// is malformed: answer it with an error without invoking any handler.
+		if err := checkAttrs(pkt.requestPacket); err != nil {
+			rs.pktMgr.readyPacket(
+				rs.pktMgr.newOrderedResponse(statusFromError(pkt.requestPacket.id(), err), orderID))
+			continue
+		}
+
 		var rpkt responsePacket
 		switch pkt := pkt.requestPacket.(type) {
 		case *sshFxInitPacket:
@@ -326,6 +334,20 @@ func (rs *RequestServer) packetWorker(ctx context.Context, pktChan chan orderedR
 			rs.pktMgr.newOrderedResponse(rpkt, orderID))
 	}
 	return nil
+}
+
+// checkAttrs decodes the (otherwise lazily decoded) attributes of a request.
+func checkAttrs(pkt requestPacket) error {
+	var err error
+	switch pkt := pkt.(type) {
+	case *sshFxpOpenPacket:
+		_, err = pkt.unmarshalFileStat(pkt.Flags)
+	case *sshFxpSetstatPacket:
+		_, err = pkt.unmarshalFileStat(pkt.Flags)
+	case *sshFxpFsetstatPacket:
+		_, err = pkt.unmarshalFileStat(pkt.Flags)
+	}
+	return err
 }
 
 // clean and return name packet for file
